@@ -30,6 +30,7 @@ Judge (answer = SPECIFICATION applied to the implementation's outputs; `ok` or `
 Policies (`fam` = concrete | semantic; wire form with `or` weights, see Driver/PolWire.lean;
 model = Model/TranslatePolicy.lean):
   C ptranslate <fam> <map> <p>         `Policy::translate_pk`               wire / ERR:K<id> / ERR:H<kind>:<id> / PANIC
+  C pcmp <fam> <a> <b>                 `Ord for Policy` (Model/PolicyOrd.lean)  lt / eq / gt
   C punsat <key> <p>                   `Concrete::translate_unsatisfiable_pk`   wire / PANIC
   C pforeach <fam> <stop|-> <p>        `for_each_key(|k| k != stop)` with trace   k,k,…|1
   C pforany <fam> <hit|-> <p>          `for_any_key(|k| k == hit)` with trace
@@ -41,6 +42,14 @@ model = Model/TranslatePolicy.lean):
         (token-wise; `map` = real: images are the real keys / hash values of the D tables)
   J punsat <key> <p> <result>          result = p with exactly the `pk(key)` leaves replaced by U
   J pkeys-multiset <fam> <p> <keys()> <for_each_key trace> <keys scanned from to_string()>
+Descriptors (wire form of Driver/OpsDesc.lean; model = Model/TranslateDesc.lean):
+  C dtranslate <map> <d>               `Descriptor::translate_pk`           wire / ERR:K<id> / ERR:H.. / ERR:outer
+  C diterpk <d>                        `Descriptor::iter_pk().collect()`     k,k,… / -
+  J diterpk <d> <iter_pk> <keys scanned from to_string()>      both = keys of the printed form, in order
+  J dtranslate-legal <map> <d> <answer>     refused (ERR:outer) iff the substituted descriptor is illegal
+                                            (per-node `from_ast` + `check_pk` of wrapper keys), else = substituted d
+  J dtranslate-script <map> <d> <script_pubkey of d> <script_pubkey of translated>   (bare/pkh/wpkh/wsh/sh)
+  J dtranslate-leaves <map> <d> <leaf scripts of d> <leaf scripts of translated>     (tr)
   J desc-check <check>:<descriptor> <pass|fail>   descriptor-level self-checks of the harness
         (identity / inverse / composite translation, re-parse and script_pubkey of the
         translated descriptor, translator-call and for_each_key key multisets and order,
@@ -50,6 +59,9 @@ import MsVerif.Driver.OpsMs
 import MsVerif.Model.Cmp
 import MsVerif.Model.Translate
 import MsVerif.Driver.PolWire
+import MsVerif.Model.PolicyOrd
+import MsVerif.Model.TranslateDesc
+import MsVerif.Driver.OpsDesc
 
 namespace MsVerif.Driver
 open MsVerif
@@ -154,6 +166,7 @@ def pureMapOf : String → Option PureMap
   | "ren2" => some ⟨fun k => k / 100 * 100 + (k % 100 + 7) % 10, fun _ h => (h + 2) % 4⟩
   | "collapse" => some ⟨fun k => k % 2, fun _ h => h % 2⟩     -- not injective
   | "real" => some ⟨id, fun _ h => h⟩    -- string atoms → real keys / hashes with the same ids
+  | "kcollapse" => some ⟨fun k => k / 100 * 100 + k % 2, fun _ h => h % 2⟩   -- collapsing, kind kept
   | "comp" => some ⟨fun k => k % 100, fun _ h => h⟩
   | "unc" => some ⟨fun k => k % 100 + 100, fun _ h => h⟩
   | "xonly" => some ⟨fun k => k % 100 + 200, fun _ h => h⟩
@@ -184,6 +197,29 @@ def showTr : Except (TrErr Atom) (Ms × Nat) → String
   | .error (.translatorErr (.hash kind h)) => s!"ERR:H{HashKind.name kind}:{h}"
   | .error .outerError => "ERR:outer"
   | .error .panic => "PANIC"
+
+/-! ### descriptors (wire form of Driver/OpsDesc.lean: `wsh(<ast>)`, `sh(wsh(<ast>))`,
+`sh(wpkh(k))`, `sh(<ast>)`, `wpkh(k)`, `pkh(k)`, `bare(<ast>)`, `tr(k;depth:<ast>;…)`) -/
+
+def showDesc : Desc.Desc → String
+  | .bare ms => "bare(" ++ showWire ms ++ ")"
+  | .pkh k => s!"pkh({k})"
+  | .wpkh k => s!"wpkh({k})"
+  | .wsh ms => "wsh(" ++ showWire ms ++ ")"
+  | .sh (.wsh ms) => "sh(wsh(" ++ showWire ms ++ "))"
+  | .sh (.wpkh k) => s!"sh(wpkh({k}))"
+  | .sh (.ms ms) => "sh(" ++ showWire ms ++ ")"
+  | .tr ik leaves =>
+    "tr(" ++ toString ik ++ String.join (leaves.map fun l => ";" ++ toString l.1 ++ ":" ++ showWire l.2) ++ ")"
+
+def showDTr : Except (TrErr Atom) (Desc.Desc × Nat) → String
+  | .ok (d, _) => showDesc d
+  | .error (.translatorErr (.key k)) => s!"ERR:K{k}"
+  | .error (.translatorErr (.hash kind h)) => s!"ERR:H{HashKind.name kind}:{h}"
+  | .error .outerError => "ERR:outer"
+  | .error .panic => "PANIC"
+
+def hexList (l : List Bytes) : String := if l.isEmpty then "-" else ",".intercalate (l.map Hash.toHexW)
 
 def showPTr : Except (TrErr Atom) (PPol × Nat) → String
   | .ok (p, _) => showPol p
@@ -321,6 +357,9 @@ def opsCmp (t : Tables) (kind op : String) (args : List String) : Option String 
   | "C", "ptranslate", [_fam, map, p] => do
     let p ← parsePolWire p; let tr ← translatorOf map
     pure (showPTr ((polTranslate tr p).run 0))
+  | "C", "pcmp", [_fam, a, b] => do
+    let a ← parsePolWire a; let b ← parsePolWire b
+    pure (showOrd (.ok (polCmp (atomOrd t) a b)))
   | "C", "punsat", [key, p] => do
     let p ← parsePolWire p; let key ← key.toNat?
     pure (match translateUnsat key p with | .ok q => showPol q | .error _ => "PANIC")
@@ -359,6 +398,39 @@ def opsCmp (t : Tables) (kind op : String) (args : List String) : Option String 
       else if fe != want then "bad:for_each_key"
       else if sc != want then "bad:string-keys"
       else "ok")
+  | "C", "dtranslate", [map, d] => do
+    let d ← DescOps.parseDesc d; let tr ← translatorOf map
+    pure (showDTr ((Desc.descTranslate tr (chkCtx t.keyEnv) keyLegal d).run 0))
+  | "C", "diterpk", [d] => do
+    let d ← DescOps.parseDesc d
+    pure (showKeys d.iterPk)
+  -- SPEC: keys of the printed form, in order
+  | "J", "diterpk", [d, it, scanned] => do
+    let d ← DescOps.parseDesc d
+    let it ← parseDepthsLike it; let sc ← parseDepthsLike scanned
+    pure (if it != d.keysPrinted then "bad:iter_pk" else if sc != d.keysPrinted then "bad:string-keys" else "ok")
+  -- SPEC: a pure mapping is refused (OuterError) iff the substituted descriptor is illegal
+  | "J", "dtranslate-legal", [map, d, ans] => do
+    let d ← DescOps.parseDesc d; let m ← pureMapOf map
+    let d' := d.mapKeys m.f m.g
+    let legal := d'.legal (chkCtx t.keyEnv) keyLegal
+    pure (
+      if legal then (if ans == showDesc d' then "ok" else "bad:legal-target-not-" ++ showDesc d')
+      else (if ans == "ERR:outer" then "ok" else "bad:illegal-target-accepted"))
+  -- SPEC: output script of the translated descriptor = encoder on the substituted shape
+  | "J", "dtranslate-script", [map, d, s0, s1] => do
+    let d ← DescOps.parseDesc d; let m ← pureMapOf map
+    let P := DescOps.descParams t
+    let e0 := Hash.toHexW (d.scriptPubkey P)
+    let e1 := Hash.toHexW ((d.mapKeys m.f m.g).scriptPubkey P)
+    pure (if s0 != e0 then "bad:original-script" else if s1 != e1 then "bad:translated-script" else "ok")
+  | "J", "dtranslate-leaves", [map, d, l0, l1] => do
+    let d ← DescOps.parseDesc d; let m ← pureMapOf map
+    let P := DescOps.descParams t
+    let leavesOf : Desc.Desc → List Bytes := fun d =>
+      match d with | .tr _ ls => (Desc.trLeafScripts P ls).map (·.2) | _ => []
+    pure (if l0 != hexList (leavesOf d) then "bad:original-leaves"
+      else if l1 != hexList (leavesOf (d.mapKeys m.f m.g)) then "bad:translated-leaves" else "ok")
   -- verdict of a structural self-check on a descriptor that was computed by the harness
   -- (identity / inverse translation, re-parse, script_pubkey, key visits): ok iff `pass`
   | "J", "desc-check", [_what, verdict] => some (if verdict == "pass" then "ok" else "bad:" ++ verdict)
